@@ -4,6 +4,8 @@ import Drv.Rules
 import Drv.Render
 import Drv.Loader
 import Drv.Locks
+import Drv.TextMatch
+import Drv.Comment
 /-!
 Line-protocol driver: one operation per line on stdin, one canonical answer line on stdout.
 Every engine exports `handle : List String → Option String` answering only its own ops;
@@ -17,7 +19,9 @@ def handlers : List (List String → Option String) := [
   Drv.RulesD.handle,
   Drv.RenderD.handle,
   Drv.LoaderD.handle,
-  Drv.Locks.handle
+  Drv.Locks.handle,
+  Drv.TextMatch.handle,
+  Drv.Comment.handle
 ]
 
 def dispatch (fs : List String) : Option String :=
